@@ -8,6 +8,7 @@
 import KiraModel.Proofs.LifecycleLemmas
 import KiraModel.Props.C19
 import KiraModel.Props.C06
+import KiraModel.Proofs.GenAgreeMod
 
 namespace K
 open SoundCore
